@@ -321,6 +321,9 @@ func runC19(seed uint64, n int, outDir string, replay string) {
 			c19Flood(o, rc)
 			c19Locals(o, rl)
 			c19Locals(o, rl.Fork())
+			for t := 0; t < 5; t++ {
+				c19Truncate(o, rl.Fork())
+			}
 			o.EndCase(fmt.Sprint(rc.U64()), true)
 			continue
 		}
@@ -687,6 +690,80 @@ func c19Locals(o *h.Out, rc *h.Rng) {
 		}
 		p19Settle(pool, accts)
 		p19Invariants(o, pool, accts, submitted, fmt.Sprintf("locals step %d", step))
+	}
+}
+
+// c19Truncate: the pending limits.  Small limits (AccountSlots 1-3, GlobalSlots 2-8), 2-4 accounts that each submit a
+// run of consecutive, affordable transactions.  T3 at quiescence: the pool answers (no call hangs); every account keeps
+// at least min(AccountSlots, what it submitted) pending transactions - the per-account guarantee that trimming the
+// biggest senders must respect - and the total is within max(GlobalSlots, sum of the guaranteed amounts).
+func c19Truncate(o *h.Out, rc *h.Rng) {
+	done := make(chan struct{})
+	go func() {
+		defer close(done)
+		defer func() {
+			if p := recover(); p != nil {
+				o.Violate("c19-panic", fmt.Sprintf("limits: panic: %v at %s", p, stackTop()))
+			}
+		}()
+		k := 2 + rc.Intn(3)
+		accts := p19Accounts(k)
+		for _, a := range accts {
+			a.nonce = 0
+			a.balance = 500_000_000
+		}
+		cfg := core.DefaultTxPoolConfig
+		cfg.Journal = ""
+		cfg.ReorgFrequency = time.Millisecond
+		cfg.NoLocals = true
+		cfg.AccountSlots = uint64(1 + rc.Intn(3))
+		cfg.GlobalSlots = uint64(2 + rc.Intn(7))
+		cfg.AccountQueue, cfg.GlobalQueue = 64, 1024
+		pool, _, _ := newP19Pool(cfg, accts)
+		defer pool.Stop()
+		sent := make([]int, k)
+		order := []int{}
+		for i := range accts {
+			sent[i] = 1 + rc.Intn(8)
+			for j := 0; j < sent[i]; j++ {
+				order = append(order, i)
+			}
+		}
+		for i := len(order) - 1; i > 0; i-- { // interleave the accounts' runs
+			j := rc.Intn(i + 1)
+			order[i], order[j] = order[j], order[i]
+		}
+		next := make([]uint64, k)
+		for _, ai := range order {
+			tx := p19Tx(accts[ai], next[ai], uint64(100+rc.Intn(20)), uint64(rc.Intn(100)))
+			next[ai]++
+			pool.AddRemotesSync([]*types.Transaction{tx})
+		}
+		p19Settle(pool, accts)
+		total, guaranteed := 0, 0
+		var desc []string
+		for i, a := range accts {
+			pend, _ := pool.ContentFrom(a.ia)
+			total += len(pend)
+			g := min(int(cfg.AccountSlots), sent[i])
+			guaranteed += g
+			desc = append(desc, fmt.Sprintf("%d of %d", len(pend), sent[i]))
+			if len(pend) < g {
+				o.Violate("c19-account-cut-below-its-guarantee", fmt.Sprintf("AccountSlots %d, GlobalSlots %d: account %d submitted %d consecutive transactions and keeps %d pending (all accounts: %s)", cfg.AccountSlots, cfg.GlobalSlots, i, sent[i], len(pend), strings.Join(desc, ", ")))
+			}
+		}
+		if lim := max(int(cfg.GlobalSlots), guaranteed); total > lim {
+			o.Violate("c19-pending-limit", fmt.Sprintf("AccountSlots %d, GlobalSlots %d: %d pending in total (%s), at most %d allowed", cfg.AccountSlots, cfg.GlobalSlots, total, strings.Join(desc, ", "), lim))
+		}
+		o.Count("limits-case")
+	}()
+	select {
+	case <-done:
+	case <-time.After(60 * time.Second):
+		o.Violate("c19-deadlock", "a pool with small pending limits does not answer within 60 s after runs of consecutive transactions from several accounts")
+		o.EndCase("stuck", true)
+		o.Close(nil)
+		os.Exit(0)
 	}
 }
 
